@@ -80,3 +80,26 @@ def run(R, kinds=None):
                 blind.append("kind=%s fixture=%s" % (k, name))
     R.fixture_results = results
     return blind
+
+
+def _e(prog):
+    out = []
+    for name, want in (("e::bad_swallow", 2), ("e::good_propagate", 0)):
+        f = prog.need(name)
+        n = 0
+        for c in f.calls:
+            if not c.dest or "p" in c.dest:
+                continue
+            ty = f.local_ty(c.dest["l"])
+            if not ty.startswith("std::result::Result<") or "io::Error" not in ty:
+                continue
+            if c.path == E.TRY_BRANCH:
+                continue
+            fates = E.result_fate(f, c)
+            if not (fates & {"propagated", "returned", "panics", "escapes"}):
+                n += 1
+        out.append(("E", name, n == want))
+    return out
+
+
+KIND_TESTS["E"] = _e
